@@ -320,7 +320,19 @@ def rule_twincall(ctx):
     calls = [c for c in s.calls() if c.callee == "beat._get_entropy"]
     need(len(calls) == 2, R, "information_gain: forward/backward entropy calls not found")
     a, b = calls[0].term, calls[1].term
-    mirror = swap_roles(a, f) is b
+    g_ent = ctx.program.func("beat._get_entropy", R)
+
+    def bound(c):
+        bd = {}
+        for i, x in enumerate(c.args):
+            if i < len(g_ent.params):
+                bd[g_ent.params[i]] = x
+        for n, v in c.kw:
+            bd[n] = v
+        return bd
+
+    ba, bb = bound(calls[0]), bound(calls[1])
+    mirror = set(ba) == set(bb) and all(swap_roles(ba[k], f) is bb[k] for k in ba)
     main = [r for r in s.returns if not is_lit(r.term)]
     sym = False
     if mirror and len(main) == 1 and main[0].term.op == "ite":
